@@ -81,6 +81,16 @@ def check_files_rules(ctx, rid):
         ret = origins(fb, {"l": 0, "p": []})
         direct = any(x.bb == c.bb for x in ret.calls) and "unop:Not" not in ret.via      # `_0 = path.is_file()`
         path_err = [(t["bb"], tg) for g in fb.calls_to("acmed::storage::get_file_path") for t in try_edges(fb, [g.dest["l"]]) for tg in t["err"]]
+        # ... or, when the path helper was reorganised and inlined here: the Err arm of any Result that was computed without looking
+        # at a file (no metadata / read / open in its provenance) — a path that cannot be computed, not a content criterion
+        FS = ("metadata", "symlink_metadata", "len", "read", "read_to_end", "read_to_string", "open", "is_file", "exists", "try_exists")
+        for l_, d_ in enumerate(fb.locals):
+            if l_ == 0 or not d_["ty"].startswith("core::result::Result<"):
+                continue
+            sl_ = origins(fb, {"l": l_, "p": []})
+            if any((x.name or "").rsplit("::", 1)[-1] in FS and ("std::fs" in (x.name or "") or "std::path" in (x.name or "") or "tokio::fs" in (x.name or "")) for x in sl_.calls):
+                continue
+            path_err += [(t["bb"], tg) for t in try_edges(fb, [l_]) for tg in t["err"]]
         # (c) false only when missing
         okc, hit = unreachable_without(fb, falses, removed_edges=f_e + path_err)
         ctx.require(rid, okc and (bool(f_e) or direct), where(fb, (hit or falses or [c.bb])[0]),
@@ -117,7 +127,14 @@ def file_identity_rules(ctx, rid):
     from .c13 import GETTERS, fm_wiring_rule
     prog = ctx.prog
     fm_wiring_rule(ctx, rid, {k: v for k, v in GETTERS.items() if k.endswith("_ext")})
-    gp = prog.must_body("acmed::storage::get_file_full_path")
+    # the function that computes a stored file's location: get_file_full_path today; found by role when it was reorganised — the
+    # storage function taking (&FileManager, FileType) from which the name template is rendered
+    gp = prog.body("acmed::storage::get_file_full_path")
+    if gp is None:
+        cands = [b_ for k_, b_ in prog.bodies.items() if k_.startswith("acmed::storage::") and b_.kind == "Fn" and not b_.raw.get("is_async")
+                 and b_.raw.get("inputs") == ["&acmed::storage::FileManager", "acmed::storage::FileType"]]
+        cands = [prog.body(b_.key) for b_ in cands if any(c.is_("acmed::template::render_template") for c in prog.body(b_.key).calls)]
+        gp = cands[0] if len(cands) == 1 else prog.must_body("acmed::storage::get_file_full_path")
     FMK = "acmed::storage::FileManager"
     want = {"PrivateKey": "PKEXT", "Certificate": "CERTEXT"}
     for ft in prog.adt_variants(FT):
